@@ -36,6 +36,8 @@ def apply_pins(ep, args):
         ep.pin_opt(rx, alts)
     if args.get('import_callee'):
         ep.import_callee = True
+    if args.get('concrete_enums'):
+        ep.concrete_enums = tuple(args['concrete_enums'])
     if args.get('module_import'):
         ep.module_import = True
     return ep
@@ -228,3 +230,9 @@ EXTRACT_Q = dict(scenario='extract', args=dict(max_buckets=2, per_bucket=(1,)), 
 PLANS['C13'] = {'quick': [EXTRACT_Q, ALL_D2, PROTO_Q, PLACEMENT_Q], 'thorough': [EXTRACT_T, ALL_D2, PROTO_T, PLACEMENT_Q, OPERANDS_Q]}
 PLANS['C10'] = {'quick': [EXTRACT_Q], 'thorough': [EXTRACT_T]}
 PLANS['C16'] = {'quick': [EXTRACT_Q], 'thorough': [EXTRACT_T]}
+
+
+# C01: behavioural equivalence.  Short-circuit contexts with concrete operators; effectful leaves everywhere.
+SHORTCIRCUIT_Q = dict(scenario='block_expr', args=dict(policy=expr_profile([['Bin', 'Cond', 'Assign'], ['Bin', 'Call', 'Ident'], ['Ident', 'Call'], ['Ident']], max_args=(1, 1, 0, 0), bin_ops=['LogicalOr', 'NullishCoalescing', 'Add'], assign_ops=['AddAssign', 'OrAssign'], props=['substring', 'foo'], names=['a'], op_budget=4), concrete_enums=('BinaryOp', 'AssignOp')),
+                      label='short-circuit contexts (||, ??, ?:, ||=) with concrete operators around instrumented operations with effectful operands, depth 3, <= 4 non-leaf nodes')
+PLANS['C01'] = {'quick': [ALL_D2, OPERANDS_Q, SHORTCIRCUIT_Q, PROTO_Q], 'thorough': [ALL_D2, OPERANDS_Q, CONTEXTS_Q, SHORTCIRCUIT_Q, PROTO_T, OPERANDS_T]}
